@@ -1936,8 +1936,9 @@ class VM:
             return result
 
         def repeat(*args):
-            count = to_integer(args[0]) if args else 0
-            if count < 0 or count >= 2**53:
+            n = to_number(args[0]) if args else 0
+            count = to_integer(n)
+            if count < 0 or n == float("inf"):
                 raise JSRangeError("Invalid count value")
             return s * count
 
